@@ -39,6 +39,7 @@ SPECIAL_TITLES = [
     "t-shirt xl", "wi-fi router", "e-mail", "micro biology", "night light", "power-bank usb", "3d printer 4k", "usb2 hub", "no.5 chanel",
     "500ml bottle 12v 1kg", "Größe XL", "Süße Grüße", "Élégant cœur", "Bäckerstraße 5",
     "daddy puppy mummy", "sense tests sensors", "bell bela pikk", "radar level civic",
+    "!!!", "-- --", "???", "",          # titles without any word: they take a position in the store and in the index all the same
     "ps 4 console", "mp-3 player", "ab c", "a bc def", "electroencephalographic otorhinolaryngological kit", "Fried rice", "Dairy farm",
 ]
 
@@ -480,6 +481,14 @@ def gen_store_relations(prop, lang, rnd, titles, toks, ncases, big=False):
             ws = words_of(tok) if tok else []
             w = text(rnd.choice(ws)) if ws else "metal"
             recs = [w + " " + rnd.choice(titles) if rnd.random() < 0.8 else rnd.choice(titles) for _ in range(n)]
+        elif rnd.random() < 0.25:
+            # a catalogue over two or three words only (more records than the whole index has distinct grams)
+            voc = []
+            for t in rnd.sample(titles, min(len(titles), 3)):
+                voc += [x for x in t.split(" ") if x][:1]
+            voc = voc[:rnd.randint(1, 3)] or ["lamp"]
+            n = rnd.randint(6, 12)
+            recs = [" ".join(rnd.sample(voc, rnd.randint(1, len(voc)))) for _ in range(n)]
         else:
             recs = [rnd.choice(titles) for _ in range(n)]
         c = Case(prop, "relations", lang=lang)
@@ -564,16 +573,36 @@ def gen_histories(prop, lang, rnd, titles, toks, ncases, length=14, adversarial=
                 c.add(sid, nid, t, rating)
                 held.append((t, nid))
                 nid += 1
-            elif r < 0.37:
+            elif r < (0.42 if prop == "C05" else 0.37):
                 c.op(op="clear", sid=sid)
                 gone = [h[0] for h in held][-6:]
+                first = [h[0] for h in held][:8]
                 held = []
-                # a smaller catalogue arrives, and the user still asks for what used to be there
-                for _k in range(rnd.randint(1, 2)):
-                    t = rnd.choice(titles)
-                    c.add(sid, nid, t, rnd.randint(0, 3) if small_ratings else rnd.randint(0, 2 ** 31 - 1))
-                    held.append((t, nid))
-                    nid += 1
+                shortw = sorted({w for t in titles[:60] for w in t.split(" ") if 3 <= len(w) <= 4 and w.isalpha() and len(set(w.lower())) == len(w)})
+                if rnd.random() < (0.6 if prop == "C05" else 0.25) and len(shortw) >= 3:
+                    # an interim catalogue of short words, cleared again at once and re-imported respelled: with words of
+                    # three or four letters the respelled title shares no gram at all with the original
+                    first = rnd.sample(shortw, rnd.randint(2, min(6, len(shortw))))
+                    for t0 in first:
+                        c.add(sid, nid, t0, rnd.randint(0, 1000))
+                        nid += 1
+                    c.op(op="clear", sid=sid)
+                if rnd.random() < 0.4 and first:
+                    # the catalogue is re-imported with its titles respelled (the first two letters of every word swapped):
+                    # position by position a near-miss of what used to be there, sharing no word start with it
+                    gone = first
+                    for t0 in first:
+                        t = " ".join(w[1:2] + w[0:1] + w[2:] for w in t0.split(" "))
+                        c.add(sid, nid, t, rnd.randint(0, 3) if small_ratings else rnd.randint(0, 2 ** 31 - 1))
+                        held.append((t, nid))
+                        nid += 1
+                else:
+                    # a smaller catalogue arrives, and the user still asks for what used to be there
+                    for _k in range(rnd.randint(1, 2)):
+                        t = rnd.choice(titles)
+                        c.add(sid, nid, t, rnd.randint(0, 3) if small_ratings else rnd.randint(0, 2 ** 31 - 1))
+                        held.append((t, nid))
+                        nid += 1
                 for t in gone[:3]:
                     ws_ = t.split()
                     if ws_:
@@ -988,6 +1017,58 @@ def gen_dl_cases(rnd, tier):
             c.ops.append(dl_op(inst, a, b, lambda ch: cmap[ch], cells_all=0, any_classes=True))
             c.ops.append(dl_op(inst, a, b, lambda ch: cmap[ch], cells_all=0))
         cases.append(c)
+    # the initial dimension from both sides: the first calls of a never-grown instance with words whose length sits at
+    # the initial capacity (InitCapacity = 20, dimension 22) -3 .. +4, as either argument, against a short word, a
+    # relative of the same length and itself; the same pairs afterwards on an instance that has grown far beyond them
+    for rep in range(2 if tier == "quick" else 12):
+        sub = alpha[:rnd.choice([3, 6, len(alpha)])]
+        for ln in range(17, 25):
+            c = Case("C16", "initial-boundary")
+            w = "".join(rnd.choice(sub) for _ in range(ln))
+            short = alpha[-1] + w[ln - 2:]
+            i = rnd.randrange(ln - 1)
+            rel = w[:i] + w[i + 1] + w[i] + w[i + 2:]
+            head = alpha[-1] + w[:2]            # an extra first letter, then the beginning of the long word
+            tiny = [(alpha[-1] + w[:1], w[:1]), (w[:3], w[1:4]), (alpha[-1] + alpha[-2] + w[:2], w[:2]), (w[:2], alpha[-1] + w[:2])]
+            rest = [(w, short), (w, head), (w, rel), (rel, w), (w, w), (w[:ln - 1], w), (w, w[1:])]
+            rnd.shuffle(rest)
+            # short first arguments first (few rows), then short words again on the same instance, then the long rows
+            pairs = [(short, w), (head, w)] + tiny + rest + tiny
+            # the prefixes of the short first arguments against the first letters of the long word, each on its own on
+            # a fresh instance: the memo that the prefix cells of the boundary calls are compared with
+            for sw in (head, short):
+                for i in range(1, len(sw) + 1):
+                    for j in range(1, 4):
+                        c.op(op="dlnew", inst=99)
+                        c.ops.append(dl_op(99, sw[:i], w[:j], lambda ch: cmap[ch], cells_all=0))
+            c.op(op="dlnew", inst=1)
+            for k, (a, b) in enumerate(pairs):
+                c.ops.append(dl_op(1, a, b, lambda ch: cmap[ch], cells_all=200 if k < 2 else 0))
+            c.op(op="dlnew", inst=2)
+            big = "".join(rnd.choice(sub) for _ in range(70))
+            c.ops.append(dl_op(2, big, big[3:], lambda ch: cmap[ch], cells_all=0))
+            for a, b in pairs:
+                c.ops.append(dl_op(2, a, b, lambda ch: cmap[ch], cells_all=0))
+            cases.append(c)
+    # lopsided growth: both words longer than the current dimension, one much longer than the other, in either argument
+    # order, as the first call of an instance and again after it has grown
+    for rep in range(3 if tier == "quick" else 20):
+        sub = alpha[:rnd.choice([3, 6, len(alpha)])]
+        for order in (0, 1):
+            c = Case("C16", "lopsided-growth")
+            c.op(op="dlnew", inst=1)
+            size_now = 22
+            for _round in range(2):
+                la = size_now + rnd.randint(-1, 3)
+                lb = la + la // 2 + rnd.randint(2, 8) + (la if rnd.random() < 0.3 else 0)
+                a = "".join(rnd.choice(sub) for _ in range(la))
+                b = (a + "".join(rnd.choice(sub) for _ in range(lb)))[:lb] if rnd.random() < 0.5 else "".join(rnd.choice(sub) for _ in range(lb))
+                x, y = (a, b) if order == 0 else (b, a)
+                c.ops.append(dl_op(1, x, y, lambda ch: cmap[ch], cells_all=0))
+                c.ops.append(dl_op(1, y, x, lambda ch: cmap[ch], cells_all=0))
+                need = max(la, lb) + 2
+                size_now = need + need // 2
+            cases.append(c)
     return cases
 
 
